@@ -11,7 +11,8 @@ RULE = ("complete enumeration: every entry of the element->rule map (resolved th
         "get_rule), every rule of the loaded table (structure parsed by an independent parser; each declared content "
         "rule exercised by a live validation), every (rule, child name) pair of every reachable rule, and per known "
         "element one generated minimal tree (thorough: plus random valid trees) that the real validate.tree must "
-        "accept in both modes. distinct = distinct table entries / (rule, child) pairs / generated trees")
+        "accept in both modes. distinct = distinct table entries / (rule, child) pairs / generated trees"
+        ". Also: every public rule query asked twice and the tables re-checked afterwards, the loader's copy edited by the caller, declared child names in foreign spellings, a name registered after first use")
 ASSUMPTIONS = [
     "a rule is reachable when some known element maps to it",
     "a rule 'permits' a child name when the name occurs in its children section",
